@@ -64,7 +64,7 @@ func (lr *laRun) finish(res *laResult, extra map[string]interface{}) int {
 	os.RemoveAll(replayBase)
 	var total engine.Stats
 	total.Unsupported = map[string]int{}
-	violations, inconclusive, vacuous := 0, 0, 0
+	violations, inconclusive, vacuous, unconfirmed := 0, 0, 0, 0
 	obligations, discharged := 0, 0
 	knownHits := map[string]int{}
 	var samples []interface{}
@@ -124,15 +124,26 @@ func (lr *laRun) finish(res *laResult, extra map[string]interface{}) int {
 				knownHits[k.What] += st.Failed
 				continue
 			}
-			dir := filepath.Join(replayBase, fmt.Sprintf("case%02d", ci))
-			ci++
-			res.Session.WriteReplay(ce, dir)
-			ok, out := layera.RunReplay(dir)
-			os.WriteFile(filepath.Join(dir, "replay.out"), []byte(out), 0o644)
-			validated++
+			var dir string
+			ok := false
+			for _, ex := range st.Examples {
+				dir = filepath.Join(replayBase, fmt.Sprintf("case%02d", ci))
+				ci++
+				res.Session.WriteReplay(ex, dir)
+				var out string
+				ok, out = layera.RunReplay(dir)
+				os.WriteFile(filepath.Join(dir, "replay.out"), []byte(out), 0o644)
+				validated++
+				if ok {
+					ce = ex
+					break
+				}
+			}
 			if !ok {
-				fmt.Printf("SPURIOUS: kernel=%s panic %s did not reproduce natively, see %s\n", kr.Kernel.Name, id, dir)
-				fatal = append(fatal, "spurious panic "+id)
+				// Go-spec-level panic that the compiled code does not exhibit for the tried inputs
+				// (e.g. a nil dereference whose loaded value is unused on that path): not reported.
+				fmt.Printf("UNCONFIRMED: kernel=%s panic %s (%s) did not reproduce natively on %d tried inputs, see %s\n", kr.Kernel.Name, id, ce.Note, len(st.Examples), dir)
+				unconfirmed++
 				continue
 			}
 			violations++
@@ -184,8 +195,15 @@ func (lr *laRun) finish(res *laResult, extra map[string]interface{}) int {
 	if inconclusive > 0 {
 		fmt.Printf("INCONCLUSIVE: %d obligations undecided by all solvers\n", inconclusive)
 	}
+	seenFatal := map[string]bool{}
 	for _, f := range fatal {
-		fmt.Println("TOOL-ERROR:", firstLine(f))
+		if os.Getenv("VERIF_DEBUG") != "" && !seenFatal[firstLine(f)] {
+			fmt.Println(f)
+		}
+		if !seenFatal[firstLine(f)] {
+			fmt.Println("TOOL-ERROR:", firstLine(f))
+		}
+		seenFatal[firstLine(f)] = true
 	}
 	cov := map[string]interface{}{
 		"states":                        total.Completed + total.Panicked,
@@ -209,6 +227,7 @@ func (lr *laRun) finish(res *laResult, extra map[string]interface{}) int {
 		"unsupported":                   total.UnsupportedList(),
 		"inconclusive_obligations":      inconclusive,
 		"known_findings":                kh,
+		"unconfirmed_panics":            unconfirmed,
 		"solver":                        "z3 4.8.12 (one z3 -in per worker, push/pop); unknown => z3-new, cvc5",
 		"stubs":                         "fmt.Errorf/Sprintf (opaque, recorded), strings.* (Go-coded byte models validated natively in /verif/models), regexp (native on concrete patterns, else fresh), go/types + go/token + go/constant (real library code run natively on concrete objects), path/filepath (native on concrete, uninterpreted on atoms), os/jennifer as listed per kernel",
 	}
@@ -242,4 +261,72 @@ func fmtVals(ce *layera.Counterexample) string {
 		s = s[:600] + "…"
 	}
 	return s
+}
+
+// kernelSummary evaluates a kernel run that accompanies a Layer B property: violations are printed
+// with replays; the summary map goes into the property's evidence.
+func kernelSummary(opt *Options, prop string, lr *laRun, res *laResult) (int, map[string]interface{}) {
+	out := map[string]interface{}{}
+	if res.Fatal != "" {
+		fmt.Println("TOOL-ERROR:", res.Fatal)
+		return 2, out
+	}
+	known := loadKnown()
+	code := 0
+	ci := 100
+	for _, kr := range res.Results {
+		ks := map[string]interface{}{}
+		for id, st := range kr.Asserts {
+			ks[id] = fmt.Sprintf("reached on %d paths, proved %d, failed %d, inconclusive %d", st.Reached, st.Proved, st.Failed, st.Inconclusive)
+			if st.Failed > 0 {
+				if k := matchKnown(known, prop, kr.Kernel.Name, "assert", id); k != nil {
+					fmt.Printf("KNOWN-FINDING: property=%s %s (%d paths)\n", prop, k.What, st.Failed)
+					continue
+				}
+				dir := filepath.Join("/verif/replays", prop, fmt.Sprintf("case%02d", ci))
+				ci++
+				res.Session.WriteReplay(st.First, dir)
+				ok, outp := layera.RunReplay(dir)
+				os.WriteFile(filepath.Join(dir, "replay.out"), []byte(outp), 0o644)
+				if !ok {
+					fmt.Printf("SPURIOUS: kernel=%s assert=%s did not reproduce natively, see %s\n", kr.Kernel.Name, id, dir)
+					code = 2
+					continue
+				}
+				fmt.Printf("VIOLATION property=%s replay=%s\n  kernel=%s assertion=%s fails on %d paths; inputs: %s\n", prop, dir, kr.Kernel.Name, id, st.Failed, fmtVals(st.First))
+				code = 1
+			}
+		}
+		for id, st := range kr.Panics {
+			ks["panic:"+id] = st.Failed
+			dir := filepath.Join("/verif/replays", prop, fmt.Sprintf("case%02d", ci))
+			ci++
+			res.Session.WriteReplay(st.First, dir)
+			ok, _ := layera.RunReplay(dir)
+			if ok {
+				fmt.Printf("VIOLATION property=%s replay=%s\n  kernel=%s panics: %s\n", prop, dir, kr.Kernel.Name, id)
+				code = 1
+			}
+		}
+		if kr.Stats != nil {
+			ks["paths"] = kr.Stats.Paths
+			ks["queries"] = kr.Stats.Queries
+			for _, u := range kr.Stats.UnsupportedList() {
+				fmt.Println("INCONCLUSIVE: unsupported:", u)
+			}
+		}
+		for id, n := range kr.Reach {
+			ks["reach:"+id] = n
+		}
+		for _, f := range kr.Fatal {
+			fmt.Println("TOOL-ERROR:", firstLine(f))
+			code = 2
+		}
+		if len(kr.Asserts) == 0 {
+			fmt.Printf("TOOL-ERROR: kernel %s reached no assertion\n", kr.Kernel.Name)
+			code = 2
+		}
+		out[kr.Kernel.Name] = ks
+	}
+	return code, out
 }
